@@ -887,6 +887,79 @@ def s_state_flag(A):
         st.close()
 
 
+def s_index_update_partial_old(A):
+    """index.update carries hashes over from a PREVIOUS index whose metas are partial: one persisted with
+    DataIndex.open/commit/close and reopened (Meta.to_dict keeps neither inode nor mtime), one rebuilt through
+    to_dict/from_dict, and the in-memory one.  Files are then rewritten in place / atomically replaced with bytes of
+    exactly the SAME size (and one with another size, one untouched): every hash the new index carries must be the md5
+    of the file's current bytes."""
+    from dvc_data.hashfile.meta import Meta
+    from dvc_data.index import DataIndex, DataIndexEntry
+    from dvc_data.index.build import build
+    from dvc_data.index.checkout import compare  # noqa: F401
+    from dvc_data.index.update import update
+
+    root, st = A.new("iupd")
+    try:
+        case = {"audit": "index-update-partial-old"}
+        ws = os.path.join(root, "ws")
+        before = {"same": b"stays put", "inplace": b"AAAA-1111", "dir/replaced": b"BBBB-2222", "resized": b"short",
+                  "dir/sub/deep": b"CCCC-3333"}
+        for k, v in before.items():
+            A.put(os.path.join(ws, *k.split("/")), v)
+        old_mem = build(ws, A.fs)
+        from dvc_data.index.save import md5 as index_md5
+
+        old_mem = index_md5(old_mem, state=st)
+        olds = {"in-memory": old_mem}
+        dbp = os.path.join(root, "old.db")
+        disk = DataIndex.open(dbp)
+        for k, e in old_mem.iteritems():
+            disk[k] = e
+        disk.commit()
+        disk.close()
+        olds["reopened-sqlite"] = DataIndex.open(dbp)
+        rt = DataIndex()
+        for k, e in old_mem.iteritems():
+            rt[k] = DataIndexEntry.from_dict(e.to_dict())
+            rt[k].key = k
+        olds["dict-round-trip"] = rt
+        stripped = DataIndex()
+        for k, e in old_mem.iteritems():
+            m = e.meta
+            stripped[k] = DataIndexEntry(key=k, meta=None if m is None else Meta(isdir=m.isdir, size=m.size, isexec=m.isexec),
+                                         hash_info=e.hash_info)
+        olds["size-only-metas"] = stripped
+        A.put(os.path.join(ws, "inplace"), b"XXXX-9999", how="write")
+        A.put(os.path.join(ws, "dir", "replaced"), b"YYYY-8888", how="replace")
+        A.put(os.path.join(ws, "resized"), b"much longer now")
+        # (dir/sub/deep and same stay untouched; a rewrite with the mtime restored is outside the Ticks hypothesis)
+        for oname, old in olds.items():
+            new = build(ws, A.fs)
+            update(new, old)
+            carried = 0
+            for k, e in new.iteritems():
+                if e.meta is not None and e.meta.isdir:
+                    continue
+                if e.hash_info:
+                    carried += 1
+                    with open(os.path.join(ws, *k), "rb") as f:
+                        cur = f.read()
+                    if e.hash_info.name != "md5" or e.hash_info.value != md5(cur):
+                        A.fail("index-update-partial-old",
+                               f"previous index {oname}: update carried {e.hash_info.name}:{e.hash_info.value} over to "
+                               f"{'/'.join(k)!r}, whose bytes {cur!r} hash to {md5(cur)}", case,
+                               sig="C13:stale:index-update:partial-previous-metas")
+            A.dim("pre-state:index.update previous index " + oname)
+            A.dim("index.update carried hashes", carried)
+        try:
+            olds["reopened-sqlite"].close()
+        except Exception:  # noqa: BLE001, S110
+            pass
+    finally:
+        st.close()
+
+
 def run_audit(ctx):
     A = Audit(ctx)
     scenarios = [
@@ -907,6 +980,7 @@ def run_audit(ctx):
         ("remove-fault", lambda: s_remove_fault(A)),
         ("faults", lambda: s_faults(A)),
         ("state-flag", lambda: s_state_flag(A)),
+        ("index-update-partial-old", lambda: s_index_update_partial_old(A)),
     ]
     for name, fn in scenarios:
         n0 = len(A.problems)
